@@ -120,6 +120,9 @@ func main() {
 			fmt.Printf("%-8s %-10s %s  [%s %.2fs]\n", o.Status, o.Kind, o.Name, o.Solver, o.Seconds)
 			if o.Status != "unsat" && o.Kind != "cover" {
 				fmt.Printf("    clause: %s\n    goal: %s\n", o.Clause, truncate(o.Goal.S, 400))
+				if o.Status == "unknown" {
+					fmt.Printf("    solver output: %s\n", truncate(o.RawOut, 300))
+				}
 				for _, t := range o.Trace {
 					fmt.Printf("      | %s\n", t)
 				}
